@@ -8,7 +8,7 @@ use proptest::prelude::*;
 use serde::{Deserialize, Serialize};
 use serde_json::Value;
 use std::time::Duration;
-use tokio::io::AsyncWriteExt;
+use tokio::io::{AsyncReadExt, AsyncWriteExt};
 use trusttunnel::verif::session::{ChannelView, Proto};
 
 #[derive(Serialize, Deserialize, Debug, Clone, PartialEq, Eq)]
@@ -22,6 +22,9 @@ pub enum Scenario {
     SniSelect,
     /// endpoint start-up with configured passwords
     Startup,
+    /// a request head the HTTP/1.1 parser refuses (or never completes), carrying the secrets, with
+    /// CRLF, bare LF or mixed line ends, on one of the HTTP/1.1 channels (all chosen from `nonce`)
+    RawHead,
 }
 
 #[derive(Serialize, Deserialize, Debug, Clone)]
@@ -168,6 +171,89 @@ fn build_request(c: &Case, k: &Canaries) -> Req {
     }
 }
 
+/// A head the parser refuses, with the secrets in it
+async fn raw_head(world: &World, c: &Case, k: &Canaries) {
+    let n = c.nonce;
+    let eol = ["\r\n", "\n", "\n", "\r\n"][(n % 4) as usize];
+    // mixed: the request line ends properly, the header lines do not (or the other way round)
+    let (eol_first, eol_rest) = match (n >> 2) % 3 {
+        0 => (eol, eol),
+        1 => ("\r\n", "\n"),
+        _ => ("\n", "\r\n"),
+    };
+    let (channel, sni) = match (n >> 4) % 4 {
+        0 => (ChannelView::Tunnel, "main.x"),
+        1 => (ChannelView::Ping, "ping.x"),
+        2 => (ChannelView::Speedtest, "speed.x"),
+        _ => (ChannelView::ReverseProxy, "rp.x"),
+    };
+    let request_line = match (n >> 6) % 4 {
+        0 => "CONNECT dest.test:443 HTTP/1.1",
+        1 => "GET http://plain.test/index.html HTTP/1.1",
+        2 => "GET /1mb.bin HTTP/1.1",
+        _ => "CONNECT dest.test:443 HTTP/1.7",
+    };
+    let secrets = vec![
+        format!("Proxy-Authorization: Basic {}", k.token),
+        format!("Authorization: Bearer {}", k.authorization),
+        format!("Cookie: sid={}", k.cookie),
+    ];
+    let mut lines: Vec<String> = vec![format!("Host: {}", sni)];
+    let defect = (n >> 8) % 6;
+    match defect {
+        // the offending line after / before / between the secrets
+        0 => {
+            lines.extend(secrets.clone());
+            lines.push("Bad Header: 1".into());
+        }
+        1 => {
+            lines.push("Bad Header: 1".into());
+            lines.extend(secrets.clone());
+        }
+        2 => {
+            lines.push(secrets[0].clone());
+            lines.push("X-Ctl: a\u{1}b".into());
+            lines.extend(secrets[1..].iter().cloned());
+        }
+        // more header fields than the codec takes
+        3 => {
+            lines.extend(secrets.clone());
+            for i in 0..40 {
+                lines.push(format!("X-Pad-{}: {}", i, i));
+            }
+        }
+        // a head beyond the size limit
+        4 => {
+            lines.extend(secrets.clone());
+            lines.push(format!("X-Long: {}", "z".repeat(1500)));
+        }
+        // no end of head at all: the client stops in the middle
+        _ => lines.extend(secrets.clone()),
+    }
+    let mut wire = format!("{}{}", request_line, eol_first);
+    for l in &lines {
+        wire.push_str(l);
+        wire.push_str(eol_rest);
+    }
+    if defect != 5 {
+        wire.push_str(eol_rest);
+    }
+    let (mut io, _srv) = world.serve(Proto::Http1, channel, sni, None, crate::engine::world::peer_v4(), 64 * 1024);
+    let _ = io.write_all(wire.as_bytes()).await;
+    if defect == 5 {
+        tokio::time::sleep(Duration::from_millis(100)).await;
+        let _ = io.shutdown().await;
+    }
+    let mut buf = vec![0u8; 4096];
+    let deadline = tokio::time::Instant::now() + Duration::from_secs(3);
+    loop {
+        match tokio::time::timeout_at(deadline, io.read(&mut buf)).await {
+            Ok(Ok(n)) if n > 0 => {}
+            _ => break,
+        }
+    }
+}
+
 async fn service_request(world: &World, c: &Case, k: &Canaries, channel: ChannelView, sni: &str) {
     let proto = if c.h2 && channel != ChannelView::ReverseProxy { Proto::Http2 } else { Proto::Http1 };
     let (mut io, _srv) = world.serve(proto, channel, sni, None, crate::engine::world::peer_v4(), 64 * 1024);
@@ -266,6 +352,7 @@ fn run_scenario(c: &Case) -> Vec<String> {
                 Scenario::Ping => service_request(&world, &c, &k, ChannelView::Ping, "ping.x").await,
                 Scenario::Speedtest => service_request(&world, &c, &k, ChannelView::Speedtest, "speed.x").await,
                 Scenario::ReverseProxy => service_request(&world, &c, &k, ChannelView::ReverseProxy, "rp.x").await,
+                Scenario::RawHead => raw_head(&world, &c, &k).await,
                 _ => {}
             }
             tokio::time::sleep(Duration::from_millis(20)).await;
@@ -293,7 +380,7 @@ impl Suite for LeakSuite {
         "log-canaries"
     }
     fn rule(&self) -> String {
-        "scenarios of the other properties re-run under a capturing log::Log at Trace with a unique canary in every secret-bearing field: tunnel requests over HTTP/1.1 and HTTP/2 (CONNECT to hosts / literals / reserved names / look-alikes / without port, absolute-URI GET and POST) with Proxy-Authorization written as valid, wrong, Bearer, lower-case scheme, bare token, malformed, duplicate or absent, optional Authorization and Cookie headers, every scripted connect outcome, connections with accepted / rejected SNI credentials; ping, speedtest and reverse-proxy requests carrying the same headers; the TLS demultiplexer's connection meta for <credentials>.<host> SNIs; start-up with configured passwords; oracle: no captured record contains a canary verbatim, base64-encoded or (for Proxy-Authorization) base64-decoded; non-trivial = scenario that took an error path or a non-tunnel channel".into()
+        "scenarios of the other properties re-run under a capturing log::Log at Trace with a unique canary in every secret-bearing field: request heads the HTTP/1.1 parser refuses or never completes (invalid header name before / after / between the secrets, control byte, unsupported version, 40+ fields, 1.5 KB field, client stops mid-head) with CRLF, bare LF or mixed line ends on the tunnel, ping, speedtest and reverse-proxy channels; tunnel requests over HTTP/1.1 and HTTP/2 (CONNECT to hosts / literals / reserved names / look-alikes / without port, absolute-URI GET and POST) with Proxy-Authorization written as valid, wrong, Bearer, lower-case scheme, bare token, malformed, duplicate or absent, optional Authorization and Cookie headers, every scripted connect outcome, connections with accepted / rejected SNI credentials; ping, speedtest and reverse-proxy requests carrying the same headers; the TLS demultiplexer's connection meta for <credentials>.<host> SNIs; start-up with configured passwords; oracle: no captured record contains a canary verbatim, base64-encoded or (for Proxy-Authorization) base64-decoded; non-trivial = scenario that took an error path or a non-tunnel channel".into()
     }
     fn strategy(&self, _: Tier) -> BoxedStrategy<Case> {
         let target = prop_oneof![
@@ -318,6 +405,7 @@ impl Suite for LeakSuite {
                 2 => Just(Scenario::ReverseProxy),
                 1 => Just(Scenario::SniSelect),
                 1 => Just(Scenario::Startup),
+                3 => Just(Scenario::RawHead),
             ],
             any::<bool>(),
             target,
@@ -364,6 +452,7 @@ impl Suite for LeakSuite {
             Scenario::ReverseProxy => v.push("reverse-proxy"),
             Scenario::SniSelect => v.push("sni-select"),
             Scenario::Startup => v.push("startup"),
+            Scenario::RawHead => v.push("refused-head"),
         }
         if c.sni_creds.is_some() && c.scenario == Scenario::Tunnel {
             v.push("sni-credentials");
@@ -374,7 +463,7 @@ impl Suite for LeakSuite {
         v
     }
     fn required_classes(&self) -> Vec<&'static str> {
-        vec!["nontrivial", "tunnel", "ping", "speedtest", "reverse-proxy", "sni-select", "startup", "sni-credentials"]
+        vec!["nontrivial", "tunnel", "ping", "speedtest", "reverse-proxy", "sni-select", "startup", "sni-credentials", "refused-head"]
     }
     fn check(&self, c: &Case) -> Verdict {
         let logs = run_scenario(c);
